@@ -11,7 +11,7 @@ import Refine.Model.Collapse
     (static, ref_swap.c), `ref_cavity_mixed` (static, ref_cavity.c): already transcribed loop by loop in
     `Model/Guards.lean` (`splitEdgeMixed`, `collapseEdgeMixed`, `swapEdgeMixed`, `cavityMixed` on the `Grid` list
     model, `hasSide` / `nodeEmpty` = `ref_cell_has_side` / `ref_adj_empty`, edge tables from the generated
-    `Gen/CellTables.lean`).  They are re-exported here, not copied.
+    `Gen/CellTables.lean`).  They are used here, not copied.
   * the early exits of `ref_smooth_tet_improve` ("can't handle boundaries yet", "can't mixed elements") and the two
     caller loops of `ref_smooth_pass` that offer vertices to it (`smoothTetFrozen`, `passInterior`, `passLowQuality`);
   * the cavity's treatment of mixed neighbours: every `ref_cavity_form_*` ends in `REF_CAVITY_MANIFOLD_CONSTRAINED`
@@ -60,16 +60,12 @@ def mixedTriFaces (g : Grid) : List (List Nat) :=
 /-- `MAX_CELL_SPLIT` (ref_split.c) -/
 def MAX_CELL_SPLIT : Nat := 100
 
-/-! ## the guards (re-exported from `Model/Guards.lean`) and the smoother's freeze test -/
+/-! ## the guards (those of `Model/Guards.lean`) and the smoother's freeze test -/
 
-/-- `ref_split_edge_mixed(ref_grid, node0, node1, &allowed)`: pyr, pri, hex, qua `ref_cell_has_side` -/
-abbrev splitEdgeMixed := @Guards.splitEdgeMixed
-/-- `ref_collapse_edge_mixed`: `ref_adj_empty` of pyr, pri, hex, qua at `node1` (node0 is not looked at) -/
-abbrev collapseEdgeMixed := @Guards.collapseEdgeMixed
-/-- `ref_swap_edge_mixed` (static): qua, pri, pyr, hex `ref_cell_has_side` -/
-abbrev swapEdgeMixed := @Guards.swapEdgeMixed
-/-- `ref_cavity_mixed` (static): both ends free of pyr, pri, hex, qua -/
-abbrev cavityMixed := @Guards.cavityMixed
+/-! `Guards.splitEdgeMixed` (`ref_split_edge_mixed`: pyr, pri, hex, qua `ref_cell_has_side`), `Guards.collapseEdgeMixed`
+    (`ref_collapse_edge_mixed`: `ref_adj_empty` of pyr, pri, hex, qua at `node1`; node0 is not looked at),
+    `Guards.swapEdgeMixed` (`ref_swap_edge_mixed`, static: qua, pri, pyr, hex `ref_cell_has_side`) and
+    `Guards.cavityMixed` (`ref_cavity_mixed`, static: both ends free of pyr, pri, hex, qua) are used as they are. -/
 
 /-- "can't mixed elements" (ref_smooth.c): the node is a vertex of a pyramid, prism or hexahedron
     (`!ref_cell_node_empty(pyr) || !ref_cell_node_empty(pri) || !ref_cell_node_empty(hex)`) -/
@@ -272,5 +268,19 @@ def coverCount (g : Grid) (k : List Nat) : Nat := (g.tet.filter (covers · k)).l
 /-- restricted to the faces that contain one of the touched vertices `vs` (what a hook record can show) -/
 def interfaceMatchedAt (g : Grid) (vs : List Nat) : Bool :=
   ((mixedTriFaces g).filter fun k => k.any vs.contains).all (matched g)
+
+/-- same vertex set -/
+def sameSet (a b : List Nat) : Bool := a.all b.contains && b.all a.contains
+
+/-- C01 at a triangular face `k` of a pyramid / prism: shared by exactly two cells (the non-simplex cells having it as
+    a face + the tets on it) and no boundary tri, or by one cell and exactly one boundary tri -/
+def faceConforming (g : Grid) (k : List Nat) : Bool :=
+  let nvol := (g.tet.filter (covers · k)).length + ((mixedTriFaces g).filter (sameSet k)).length
+  let ntri := (g.tri.filter (covers · k)).length
+  (nvol == 2 && ntri == 0) || (nvol == 1 && ntri == 1)
+
+/-- every triangular face of a pyramid / prism of the star that contains a touched vertex is conforming -/
+def conformingAt (g : Grid) (vs : List Nat) : Bool :=
+  ((mixedTriFaces g).filter fun k => k.any vs.contains).all (faceConforming g)
 
 end Refine.Model.Mixed
